@@ -729,7 +729,7 @@ func (f *Frame) assumeInput(v *Val) {
 	switch v.K {
 	case KScalar:
 		if v.T.Sort == SRef {
-			c.Assume(TTrue, And(ILt(RefRoot(v.T), lim), ILe(IntLitI(0), RefRoot(v.T))), "input reference is allocated")
+			c.Assume(TTrue, And(ILt(RefRoot(v.T), lim), Or(Eq(v.T, TNull), ILe(IntLitI(1), RefRoot(v.T)))), "input reference is nil or an allocated object")
 			c.oldRefs[v.T.S] = true
 		}
 	case KSlice:
